@@ -15,6 +15,7 @@ import (
 
 	"github.com/xelaj/mtproto"
 	"github.com/xelaj/mtproto/internal/mtproto/objects"
+	"github.com/xelaj/mtproto/zverif/freepass"
 	"github.com/xelaj/mtproto/zverif/ref/rpcsrv"
 	"github.com/xelaj/mtproto/zverif/ref/tlw"
 	"github.com/xelaj/mtproto/zverif/sched"
@@ -93,6 +94,7 @@ func reference(text string) want {
 
 func main() {
 	run := vr.New("C17", "model_checking")
+	freepass.MaybeReplay(run)
 	b, err := os.ReadFile(filepath.Join(vr.Root(), "testdata", "error_catalogue.json"))
 	if err != nil || json.Unmarshal(b, &catalogue) != nil {
 		vr.HarnessError("catalogue snapshot: %v", err)
@@ -378,7 +380,7 @@ func migrate(run *vr.Run) {
 			single[sc.Name] = true
 		}
 	}
-	(&sess.XSpec{Run: run, Scenarios: scenarios(), Budget: budget,
+	(&sess.XSpec{Run: run, Scenarios: scenarios(), Budget: budget, FreeSet: run.ID,
 		Bounds:                 func(*sess.Scenario) sched.Bounds { return sched.Bounds{Preemptions: -1, Delays: D, EnvDev: 1} },
 		Judge:                  judgeMigrate,
 		NonTrivial:             sess.AnyReturned,
